@@ -17,3 +17,6 @@ for C in "$@"; do
   [ $RC -ne 0 ] && echo "$OUT" | grep "broken\|VIOLATION" | cut -c1-400 | head -5
 done
 rm -rf $S
+# evidence written by a run against a scratch tree is not evidence about /repo: put the committed files back
+VD=${VERIF_DIR:-/verif}; [ -d $VD/.git ] && git -C $VD checkout -q -- evidence/ 2>/dev/null
+true
